@@ -69,7 +69,7 @@ Section Cipher.
     has_secret d = false ->
     rotate_file key enc dec layout oldk newk d next folded = Ok (mkrs d [] false 0 next folded []).
   Proof.
-    intros d next folded H; unfold rotate_file, find_eyaml_paths.
+    intros d next folded H; unfold rotate_file, rotate_file_from, find_eyaml_paths.
     rewrite find_paths_none by exact H; reflexivity.
   Qed.
 
@@ -334,7 +334,7 @@ Section Cipher2.
   Lemma seen_anchors_nodup : forall d next folded st,
     rotate_file key enc dec layout oldk newk d next folded = Ok st -> NoDup (r_seen st).
   Proof.
-    intros d next folded st H; unfold rotate_file in H.
+    intros d next folded st H; unfold rotate_file, rotate_file_from in H.
     eapply rotate_paths_nodup; [|exact H]. constructor.
   Qed.
 End Cipher2.
